@@ -255,6 +255,18 @@ def check_hr(env, f, timeout_ms=5000):
     except Exception as e:
         return {"name": name, "status": "viol", "signature": "roundtrip/hr/raises:%s/%s" % (type(e).__name__, hr_class(f)),
                 "describe": "HRParser.parse(%r) raises %r" % (text[:300], e), "replay": rp}
+    # one long-lived HR parser per environment must read the same thing (it has read the previous instances, some of them failing)
+    k = ("hr", id(env))
+    if k not in _SHARED_PARSER or _SHARED_PARSER[k][0] is not env:
+        _SHARED_PARSER[k] = (env, HRParser(env))
+    try:
+        g2 = _SHARED_PARSER[k][1].parse(text)
+    except Exception as e:
+        g2 = e
+    if g2 is not g:
+        return {"name": name, "status": "viol", "signature": "roundtrip/hr/used-parser",
+                "describe": "HRParser.parse(%r): a fresh parser gives %s, a parser that has read other texts before gives %s" %
+                            (text[:200], g.serialize()[:150], g2 if isinstance(g2, Exception) else g2.serialize()[:150]), "replay": rp}
     res = {"name": name, "status": "ok", "nontrivial": True, "queries": 0, "t": 0.0}
     if g is f:
         res["same"] = True
